@@ -1,9 +1,9 @@
-(* C14 — transports that refuse datagrams synchronously (Model/C14refuse.v):
-   (1) while the transport refuses nothing, the general model IS Model/C14.v, so every theorem about Model/C14.v
-       is a theorem about runs of the general model without refusals;
-   (2) with refusals the invariant and the absence of internal errors are refuted by concrete runs (the defects
-       C14-R1 / C14-R2 of notes/C14.md, replayed on the implementation by corpus/C14/refusing.json). *)
-From Verif Require Import Lib.Tactics Model.C14 Model.C14refuse Proofs.C14.
+(* C14 — transports that refuse datagrams synchronously (Model/C14refuse.v, the code after fixes 11456f9 / 8d04b7c):
+   (1) while the transport refuses nothing, the general model IS Model/C14.v, so every step theorem about Model/C14.v
+       is a theorem about the general model without refusals;
+   (2) for ARBITRARY refusals the invariant (one exchange per remote, backlog entry iff exchange), the absence of
+       internal errors and the FIFO / exactly-once accounting hold in every reachable state. *)
+From Verif Require Import Lib.Tactics Model.C14 Model.C14refuse Proofs.C14 Proofs.C14step.
 Import ListNotations.
 Open Scope Z_scope.
 
@@ -70,50 +70,265 @@ Proof. induction es as [|e es IH]; intros s HI Hq; [split; reflexivity|].
   - cbn [rrun rstep events_of flat_map app filter]. specialize (IH s HI Hq). change (flat_map _ es) with (events_of es).
     destruct (rrun (s, []) es) as [sl2 os]. cbn [fst snd concat app] in *. exact IH. Qed.
 
-(* ---------------------------------------------------------------- the run-level theorems, for the general model without refusals *)
-Theorem quiet_one_exchange_per_remote a b c es r : quiet es = true ->
+(* ================================================================ arbitrary refusals *)
+Lemma dispatch_error_no_subm r s r' : subm r' (snd (dispatch_error r s)) = [].
+Proof. unfold dispatch_error, tm_dispatch_error. cbn [fst snd]. rewrite subm_app, subm_dropped, app_nil_r.
+  destruct (neutral_logs r' _ (neutral_fail_map NetworkError (filter (fun o => remote_of o =? r) (outgoing_requests s)))) as (N1 & _). exact N1. Qed.
+
+Lemma trans_silent_pre s s1 o s' : backlogs s1 = backlogs s -> Trans s1 o s' -> Trans s o s'.
+Proof. intros Hb T. apply (trans_pre_ext s1); [exact Hb|exact T]. Qed.
+
+Section General.
+Variable l : list Z.
+
+(* handing a datagram that says nothing about queues to the transport, from a state satisfying the invariant *)
+Lemma send_neutral_trans what r s : Inv s -> neutral what = true ->
+  Trans s (snd (send_via_transport l what r s)) (fst (send_via_transport l what r s)).
+Proof. intros HI Hn. unfold send_via_transport. destruct (refuses l r).
+  - pose proof (dispatch_error_trans r s HI) as T. destruct (dispatch_error r s) as [s1 o1]. cbn [fst snd] in *.
+    replace (refused_ghost what) with (@nil output) by (destruct what; try reflexivity; destruct retr; [reflexivity|discriminate]). exact T.
+  - cbn [fst snd]. apply (trans_neutral s [] s [what] s); [apply trans_refl; exact HI|reflexivity|reflexivity|cbn; rewrite Hn; reflexivity]. Qed.
+
+(* _send_initially of message m: the queues are balanced with m counted as "leaving" *)
+Definition Sent (m : msg) (s : st) (o : list output) (s' : st) : Prop :=
+  Inv s' /\ nocrash o = true /\
+  forall r, subm r o = [] /\ (if con_to r m then [m] else []) ++ backlog_of r s = left r o ++ backlog_of r s'.
+
+(* from an invariant state s1 whose queues are those of s *)
+Lemma send_first m s s1 : Inv s1 -> (forall r, backlog_of r s1 = backlog_of r s) ->
+  Sent m s (snd (send_via_transport l (Tx m false) (m_remote m) s1)) (fst (send_via_transport l (Tx m false) (m_remote m) s1)).
+Proof. intros HI1 Hb1. unfold send_via_transport. destruct (refuses l (m_remote m)).
+  - pose proof (dispatch_error_trans (m_remote m) s1 HI1) as (A & B & C).
+    pose proof (dispatch_error_no_subm (m_remote m) s1) as Hs.
+    destruct (dispatch_error (m_remote m) s1) as [s2 o2]. cbn [fst snd refused_ghost] in *.
+    split; [exact A|]. split; [exact C|]. intros r. specialize (B r). rewrite Hb1, (Hs r), app_nil_r in B.
+    unfold subm, left in *. cbn [flat_map subm_o left_o app]. split; [apply Hs|]. rewrite B, app_assoc. reflexivity.
+  - cbn [fst snd]. split; [exact HI1|]. split; [reflexivity|]. intros r. rewrite Hb1. unfold subm, left. cbn. rewrite app_nil_r. auto. Qed.
+
+Lemma send_initially_con m s : m_mtype m = 0 -> exs (m_remote m) s = [] ->
+  Forall (fun m' => con_to (m_remote m) m' = true) (backlog_of (m_remote m) s) ->
+  (forall r, r <> m_remote m -> Good s r) ->
+  Sent m s (snd (C14refuse.send_initially l m s)) (fst (C14refuse.send_initially l m s)).
+Proof. intros Hc Hz Hq HI. unfold C14refuse.send_initially. replace (m_mtype m =? 0) with true by lia.
+  apply send_first; [apply add_exchange_good; assumption|intros; apply add_exchange_backlog_of]. Qed.
+
+Lemma send_initially_non m s : m_mtype m <> 0 -> Inv s ->
+  Sent m s (snd (C14refuse.send_initially l m s)) (fst (C14refuse.send_initially l m s)).
+Proof. intros Hc HI. unfold C14refuse.send_initially. replace (m_mtype m =? 0) with false by lia.
+  apply send_first; [exact HI|reflexivity]. Qed.
+
+Lemma loop_stops fuel r s : Inv s -> C14refuse.continue_backlog_loop l (S fuel) r s = (s, []).
+Proof. intros HI. cbn [C14refuse.continue_backlog_loop]. rewrite has_exchange_exs.
+  destruct (inv_count_aget s r HI) as [[Hc Ha]|(x & q & Hx & _)].
+  - rewrite Hc, Ha. reflexivity.
+  - unfold count_r. rewrite Hx. reflexivity. Qed.
+
+Lemma continue_backlog_gen r s q : exs r s = [] -> aget r (backlogs s) = Some q -> Forall (fun m => con_to r m = true) q ->
+  (forall r', r' <> r -> Good s r') ->
+  Trans s (snd (C14refuse.continue_backlog l r s)) (fst (C14refuse.continue_backlog l r s)).
+Proof. intros Hz Ha Hq HI. unfold C14refuse.continue_backlog. rewrite Ha. cbn [C14refuse.continue_backlog_loop].
+  rewrite has_exchange_exs. unfold count_r. rewrite Hz, Ha. cbn [length Nat.eqb negb].
+  destruct q as [|m q'].
+  - pose proof (release_trans r s [] Hz Ha Hq HI) as T. unfold release, backlog_of in T. rewrite Ha in T. exact T.
+  - inv Hq. assert (Hr : m_remote m = r) by (unfold con_to in H1; lia).
+    set (s0 := upd_bl s (aset r q' (backlogs s))).
+    assert (Hb0 : forall r', backlog_of r' s0 = if r' =? r then q' else backlog_of r' s).
+    { intros r'. unfold backlog_of, s0. cbn [backlogs upd_bl]. destruct (r' =? r) eqn:E.
+      - replace r' with r by lia. rewrite aget_aset_same. reflexivity.
+      - rewrite aget_aset_other by lia. reflexivity. }
+    assert (S0 : Sent m s0 (snd (C14refuse.send_initially l m s0)) (fst (C14refuse.send_initially l m s0))).
+    { apply send_initially_con.
+      - unfold con_to in H1. lia.
+      - rewrite Hr. exact Hz.
+      - rewrite Hr, Hb0, Z.eqb_refl. exact H2.
+      - rewrite Hr. intros r' Hne. apply (good_ext s); [reflexivity|unfold s0; cbn; apply aget_aset_other; assumption|apply HI; assumption]. }
+    destruct (C14refuse.send_initially l m s0) as [s1 o1]. cbn [fst snd] in S0. destruct S0 as (A & C & B).
+    cbn [length]. rewrite (loop_stops (length q') r s1 A). cbn [fst snd]. rewrite app_nil_r.
+    split; [exact A|]. split; [|exact C]. intros r'. destruct (B r') as (B1 & B2). rewrite B1, app_nil_r, <- B2, Hb0.
+    destruct (r' =? r) eqn:E.
+    + replace r' with r by lia. rewrite H1. unfold backlog_of. rewrite Ha. reflexivity.
+    + rewrite (con_to_other r r' m H1) by lia. reflexivity. Qed.
+
+Lemma remove_exchange_gen r mid mt s : Inv s ->
+  Trans s (snd (C14refuse.remove_exchange l r mid mt s)) (fst (C14refuse.remove_exchange l r mid mt s)).
+Proof. intros HI. unfold C14refuse.remove_exchange. destruct (xget r mid (active_exchanges s)) as [x|] eqn:Ex; [|apply trans_refl; exact HI].
+  destruct (xget_some _ _ _ _ Ex) as (Hin & Hr & Hm).
+  set (s1 := upd_ex s (xdel r mid (active_exchanges s))).
+  destruct (inv_count_aget s r HI) as [[Hc _]|(x0 & q & Hx & Ha & Hq)].
+  { exfalso. pose proof (in_exs r s x Hin Hr) as Hi. rewrite (count0_exs r s Hc) in Hi. exact Hi. }
+  assert (Hz1 : exs r s1 = []).
+  { unfold s1. rewrite exs_upd_ex. apply (filter_xdel_same r mid _ x); [fold (exs r s); rewrite Hx; cbn; lia|exact Hin|unfold key_eqb; lia]. }
+  set (mon := if mt =? 3 then call_monitor (x_msg x) s1 else (s1, [])).
+  assert (Hmon : active_exchanges (fst mon) = active_exchanges s1 /\ backlogs (fst mon) = backlogs s1 /\ forallb neutral (snd mon) = true).
+  { unfold mon. destruct (mt =? 3); [apply call_monitor_frame|cbn; auto]. }
+  destruct mon as [s2 o2]. cbn [fst snd] in Hmon. destruct Hmon as (He2 & Hb2 & Hn2).
+  assert (Hz2 : exs r s2 = []) by (unfold exs; rewrite He2; exact Hz1).
+  assert (Ha2 : aget r (backlogs s2) = Some q) by (rewrite Hb2; exact Ha).
+  assert (T : Trans s2 (snd (C14refuse.continue_backlog l r s2)) (fst (C14refuse.continue_backlog l r s2))).
+  { apply (continue_backlog_gen r s2 q Hz2 Ha2 Hq). intros r' Hne. apply (good_ext s).
+    - unfold exs. rewrite He2. unfold s1. cbn [active_exchanges upd_ex]. apply filter_xdel_other. assumption.
+    - rewrite Hb2. reflexivity.
+    - apply HI. }
+  destruct (C14refuse.continue_backlog l r s2) as [s3 o3]. cbn [fst snd] in *.
+  apply (trans_neutral_pre s o2 s2 o3 s3); [rewrite Hb2; reflexivity|exact Hn2|exact T]. Qed.
+
+Lemma retransmit_gen x s : Inv s -> In x (active_exchanges s) ->
+  Trans s (snd (C14refuse.retransmit l x s)) (fst (C14refuse.retransmit l x s)).
+Proof. intros HI Hin. destruct (x_counter x <? m_maxre (x_msg x)) eqn:Ec.
+  2:{ replace (C14refuse.retransmit l x s) with (C14.retransmit x s); [apply retransmit_trans; assumption|].
+      unfold C14refuse.retransmit, C14.retransmit. destruct (xget _ _ _); [|reflexivity]. rewrite Ec. reflexivity. }
+  unfold C14refuse.retransmit.
+  rewrite (xget_own s x); [|destruct (HI (m_remote (x_msg x))) as (A & _); exact A|exact Hin].
+  rewrite Ec. set (m := x_msg x). set (r := m_remote m).
+  destruct (inv_count_aget s r HI) as [[Hc _]|(x0 & q & Hx & Ha & Hq)].
+  { exfalso. pose proof (in_exs r s x Hin eq_refl) as Hi. rewrite (count0_exs r s Hc) in Hi. exact Hi. }
+  assert (Hz : filter (to_remote r) (xdel r (m_mid m) (active_exchanges s)) = []).
+  { apply (filter_xdel_same r (m_mid m) _ x); [fold (exs r s); rewrite Hx; cbn; lia|exact Hin|unfold key_eqb, r, m; lia]. }
+  unfold schedule_retransmit. cbn [fst snd upd_ex active_exchanges].
+  match goal with |- context [send_via_transport l _ r ?t] => set (s1 := t) end.
+  assert (HI1 : Inv s1).
+  { eapply (replace_inv s s1 r x0); [exact HI|exact Hx| | |reflexivity].
+    - unfold exs, s1. cbn [active_exchanges upd_ex filter x_msg]. unfold to_remote at 1. cbn [x_msg]. fold m. fold r. rewrite Z.eqb_refl.
+      f_equal. pose proof (filter_xdel_incl r r (m_mid m) (xdel r (m_mid m) (active_exchanges s))) as Hle. rewrite Hz in Hle.
+      destruct (filter (to_remote r) (xdel r (m_mid m) (xdel r (m_mid m) (active_exchanges s)))); [reflexivity|cbn in Hle; lia].
+    - intros r' Hne. unfold exs, s1. cbn [active_exchanges upd_ex filter x_msg]. unfold to_remote at 1. cbn [x_msg]. fold m. fold r.
+      replace (r =? r') with false by lia. rewrite !filter_xdel_other by assumption. reflexivity. }
+  apply (trans_silent_pre s s1); [reflexivity|]. apply send_neutral_trans; [exact HI1|reflexivity]. Qed.
+
+Lemma send_message_gen who r mt code tok maxre s : Inv s ->
+  Trans s (snd (C14refuse.send_message l who r mt code tok maxre s)) (fst (C14refuse.send_message l who r mt code tok maxre s)).
+Proof. intros HI. unfold C14refuse.send_message, next_message_id.
+  set (s0 := {| now := now s; seq := seq s; message_id := Z.land 65535 (1 + message_id s); token := token s; rand := rand s;
+                active_exchanges := active_exchanges s; backlogs := backlogs s; outgoing_requests := outgoing_requests s |}).
+  set (m := {| m_sub := who; m_remote := r; m_mtype := resolve_mtype mt; m_code := code; m_mid := message_id s; m_tok := tok; m_maxre := maxre |}).
+  assert (HI0 : Inv s0) by (apply (inv_ext s); [reflexivity|reflexivity|exact HI]).
+  apply (trans_pre_ext s0); [reflexivity|].
+  cbn [m_mtype m]. unfold in_backlogs.
+  assert (Finish : Sent m s0 (snd (C14refuse.send_initially l m s0)) (fst (C14refuse.send_initially l m s0)) ->
+            ((resolve_mtype mt =? 0) = true -> backlog_of r s0 = []) ->
+            Trans s0 (Submitted m :: snd (C14refuse.send_initially l m s0)) (fst (C14refuse.send_initially l m s0))).
+  { intros (A & C & B) Hempty. split; [exact A|]. split; [|exact C]. intros r'. destruct (B r') as (B1 & B2).
+    unfold subm, left in *. cbn [flat_map subm_o left_o app]. rewrite B1, app_nil_r. rewrite <- B2.
+    destruct (con_to r' m) eqn:Em; [|rewrite app_nil_r; reflexivity].
+    assert (r' = r) by (unfold con_to, m in Em; cbn in Em; lia). subst r'.
+    rewrite Hempty by (unfold con_to, m in Em; cbn in Em; lia). reflexivity. }
+  destruct (inv_count_aget s0 r HI0) as [[Hc Ha]|(x & q & Hx & Ha & Hq)]; rewrite Ha.
+  - rewrite andb_false_r.
+    assert (T : Trans s0 (Submitted m :: snd (C14refuse.send_initially l m s0)) (fst (C14refuse.send_initially l m s0))).
+    { apply Finish; [|intros _; unfold backlog_of; rewrite Ha; reflexivity].
+      destruct (resolve_mtype mt =? 0) eqn:Ec.
+      - apply send_initially_con; cbn [m_remote m_mtype m]; [lia|apply count0_exs; exact Hc|unfold backlog_of; rewrite Ha; constructor|intros r' _; apply HI0].
+      - apply send_initially_non; [cbn; lia|exact HI0]. }
+    destruct (C14refuse.send_initially l m s0) as [s1 o1]. exact T.
+  - rewrite andb_true_r. destruct (resolve_mtype mt =? 0) eqn:Ec.
+    + rewrite has_exchange_exs. unfold count_r. rewrite Hx. cbn [length Nat.eqb negb fst snd].
+      assert (Hm : con_to r m = true) by (unfold con_to, m; cbn; rewrite Ec, Z.eqb_refl; reflexivity).
+      split; [|split; [|reflexivity]].
+      * intros r'. destruct (Z.eq_dec r' r) as [->|Hne].
+        -- unfold Good, count_r, backlog_of. cbn [backlogs upd_bl]. rewrite aget_aset_same.
+           replace (exs r (upd_bl s0 (aset r (q ++ [m]) (backlogs s0)))) with (exs r s0) by reflexivity. rewrite Hx. cbn [length].
+           split; [lia|]. split; [split; [reflexivity|discriminate]|]. apply Forall_app. split; [exact Hq|constructor; [exact Hm|constructor]].
+        -- apply (good_ext s0); [reflexivity|cbn; apply aget_aset_other; assumption|apply HI0].
+      * intros r'. unfold subm, left, backlog_of. cbn [flat_map subm_o left_o backlogs upd_bl app]. rewrite app_nil_r.
+        destruct (Z.eq_dec r' r) as [->|Hne].
+        -- rewrite Hm, Ha, aget_aset_same. reflexivity.
+        -- rewrite (con_to_other r r' m Hm Hne), aget_aset_other by assumption. rewrite app_nil_r. reflexivity.
+    + assert (T : Trans s0 (Submitted m :: snd (C14refuse.send_initially l m s0)) (fst (C14refuse.send_initially l m s0))).
+      { apply Finish; [apply send_initially_non; [cbn; lia|exact HI0]|intros; discriminate]. }
+      destruct (C14refuse.send_initially l m s0) as [s1 o1]. exact T. Qed.
+
+Lemma tm_request_gen q r mt maxre s : Inv s ->
+  Trans s (snd (C14refuse.tm_request l q r mt maxre s)) (fst (C14refuse.tm_request l q r mt maxre s)).
+Proof. intros HI. unfold C14refuse.tm_request, next_token. cbn -[C14refuse.send_message Z.pow Z.modulo].
+  match goal with |- Trans _ (snd (C14refuse.send_message _ _ _ _ _ _ _ ?s1)) _ =>
+    apply (trans_pre_ext s1); [reflexivity|]; apply send_message_gen; apply (inv_ext s); [reflexivity|reflexivity|exact HI] end. Qed.
+
+Lemma send_empty_gen r mt mid s : Inv s -> Trans s (snd (C14refuse.send_empty l r mt mid s)) (fst (C14refuse.send_empty l r mt mid s)).
+Proof. intros HI. apply send_neutral_trans; [exact HI|reflexivity]. Qed.
+
+Lemma dispatch_message_gen r mt code mid tok s : Inv s ->
+  Trans s (snd (C14refuse.dispatch_message l r mt code mid tok s)) (fst (C14refuse.dispatch_message l r mt code mid tok s)).
+Proof. intros HI. unfold C14refuse.dispatch_message.
+  set (first := if (mt =? 2) || (mt =? 3) then C14refuse.remove_exchange l r mid mt s else (s, [])).
+  assert (T1 : Trans s (snd first) (fst first)).
+  { unfold first. destruct ((mt =? 2) || (mt =? 3)); [apply remove_exchange_gen; exact HI|apply trans_refl; exact HI]. }
+  destruct first as [s1 o1]. cbn [fst snd] in T1.
+  assert (Hn : crashed o1 = false) by (rewrite crashed_nocrash; destruct T1 as (_ & _ & ->); reflexivity). rewrite Hn.
+  pose proof (proj1 T1) as HI1.
+  destruct (code =? 0).
+  - destruct (mt =? 0); [|exact T1]. pose proof (send_empty_gen r 3 mid s1 HI1) as T2.
+    destruct (C14refuse.send_empty l r 3 mid s1) as [s2 o2]. apply (trans_trans s o1 s1); assumption.
+  - destruct (mt =? 3); [exact T1|].
+    pose proof (tm_process_response_frame r tok s1) as (He & Hb & Hnn).
+    destruct (tm_process_response r tok s1) as [[s2 o2] ok]. cbn [fst snd] in *.
+    assert (T2 : Trans s (o1 ++ o2) s2) by (apply (trans_neutral s o1 s1); assumption).
+    destruct ok; destruct (mt =? 0); try exact T2.
+    + pose proof (send_empty_gen r 2 mid s2 (proj1 T2)) as T3. destruct (C14refuse.send_empty l r 2 mid s2) as [s3 o3].
+      rewrite app_assoc. apply (trans_trans s (o1 ++ o2) s2); assumption.
+    + pose proof (send_empty_gen r 3 mid s2 (proj1 T2)) as T3. destruct (C14refuse.send_empty l r 3 mid s2) as [s3 o3].
+      rewrite app_assoc. apply (trans_trans s (o1 ++ o2) s2); assumption. Qed.
+
+Lemma fire_gen s : Inv s -> Trans s (snd (C14refuse.fire l s)) (fst (C14refuse.fire l s)).
+Proof. intros HI. unfold C14refuse.fire. destruct (min_timer (active_exchanges s)) as [x|] eqn:E; [|apply trans_refl; exact HI].
+  set (s0 := upd_now s (Z.max (now s) (x_due x))).
+  assert (T : Trans s0 (snd (C14refuse.retransmit l x s0)) (fst (C14refuse.retransmit l x s0))).
+  { apply retransmit_gen; [apply (inv_ext s); [reflexivity|reflexivity|exact HI]|apply min_timer_in; exact E]. }
+  destruct (C14refuse.retransmit l x s0) as [s1 o1]. cbn [fst snd] in *.
+  apply (trans_neutral_pre s [Fired (m_remote (x_msg x)) (m_mid (x_msg x))] s0 o1 s1); [reflexivity|reflexivity|exact T]. Qed.
+
+Theorem step_ev_trans s e : Inv s -> Trans s (snd (step_ev l s e)) (fst (step_ev l s e)).
+Proof. intros HI. destruct e; cbn [step_ev].
+  - apply tm_request_gen; exact HI.
+  - apply send_message_gen; exact HI.
+  - apply dispatch_message_gen; exact HI.
+  - apply dispatch_message_gen; exact HI.
+  - apply (step_trans s (TransportError r)); exact HI.
+  - apply fire_gen; exact HI.
+  - apply (step_trans s (Advance d)); exact HI.
+  - apply (step_trans s (Cancel q)); exact HI. Qed.
+End General.
+
+(* ---------------------------------------------------------------- all runs, whatever the transport refuses and when *)
+Lemma rrun_inv_fifo es : forall s l tr, Inv s -> (forall r, subm r tr = left r tr ++ backlog_of r s) -> nocrash tr = true ->
+  let s' := fst (fst (rrun (s, l) es)) in let tr' := tr ++ concat (snd (rrun (s, l) es)) in
+  Inv s' /\ (forall r, subm r tr' = left r tr' ++ backlog_of r s') /\ nocrash tr' = true.
+Proof. induction es as [|e es IH]; intros s l tr HI HF HN; cbn [rrun].
+  - cbn. rewrite app_nil_r. auto.
+  - destruct e as [e|r on]; cbn [rstep].
+    + destruct (step_ev_trans l s e HI) as (A & B & C). destruct (step_ev l s e) as [s1 o1]. cbn [fst snd] in *.
+      specialize (IH s1 l (tr ++ o1) A). destruct (rrun (s1, l) es) as [sl2 os]. cbn [fst snd concat] in *.
+      rewrite app_assoc. apply IH.
+      * intros r. rewrite subm_app, left_app, HF, <- !app_assoc. f_equal. apply B.
+      * rewrite nocrash_app, HN, C. reflexivity.
+    + destruct on.
+      * specialize (IH s (if refuses l r then l else l ++ [r]) tr HI HF HN). destruct (rrun _ es) as [sl2 os]. cbn [fst snd concat app] in *. exact IH.
+      * specialize (IH s (filter (fun x => negb (x =? r)) l) tr HI HF HN). destruct (rrun _ es) as [sl2 os]. cbn [fst snd concat app] in *. exact IH. Qed.
+
+Theorem general_inv a b c es : Inv (fst (fst (rrun (init a b c, []) es))).
+Proof. apply (rrun_inv_fifo es (init a b c) [] []); [apply inv_init|reflexivity|reflexivity]. Qed.
+
+Theorem general_one_exchange_per_remote a b c es r :
   let s := fst (fst (rrun (init a b c, []) es)) in
   (count_r r s <= 1)%nat /\ (in_backlogs r s = true <-> count_r r s = 1%nat) /\
   Forall (fun m => m_mtype m = 0 /\ m_remote m = r) (backlog_of r s).
-Proof. intros Hq. cbn zeta. destruct (rrun_quiet es (init a b c) (inv_init a b c) Hq) as (-> & _). cbn [fst].
-  apply one_exchange_per_remote. Qed.
+Proof. cbn zeta. destruct (general_inv a b c es r) as (A & B & C). split; [exact A|]. split.
+  - rewrite in_backlogs_iff. exact B.
+  - eapply Forall_impl; [|exact C]. intros m H. unfold con_to in H. lia. Qed.
 
-Theorem quiet_nocrash a b c es e : quiet es = true -> ~ In (Crash e) (concat (snd (rrun (init a b c, []) es))).
-Proof. intros Hq. destruct (rrun_quiet es (init a b c) (inv_init a b c) Hq) as (_ & ->). apply reachable_nocrash. Qed.
+Theorem general_fifo a b c es r :
+  subm r (concat (snd (rrun (init a b c, []) es))) = left r (concat (snd (rrun (init a b c, []) es))) ++ backlog_of r (fst (fst (rrun (init a b c, []) es))).
+Proof. apply (rrun_inv_fifo es (init a b c) [] []); [apply inv_init|reflexivity|reflexivity]. Qed.
 
-Theorem quiet_fifo a b c es r : quiet es = true ->
-  let s := fst (fst (rrun (init a b c, []) es)) in let tr := concat (snd (rrun (init a b c, []) es)) in
-  subm r tr = left r tr ++ backlog_of r s.
-Proof. intros Hq. cbn zeta. destruct (rrun_quiet es (init a b c) (inv_init a b c) Hq) as (-> & ->). cbn [fst]. apply reachable_fifo. Qed.
+Theorem general_nocrash a b c es e : ~ In (Crash e) (concat (snd (rrun (init a b c, []) es))).
+Proof. intros H. assert (N : nocrash (concat (snd (rrun (init a b c, []) es))) = true) by (apply (rrun_inv_fifo es (init a b c) [] []); [apply inv_init|reflexivity|reflexivity]).
+  unfold nocrash in N. rewrite forallb_forall in N. specialize (N _ H). discriminate. Qed.
 
-(* ---------------------------------------------------------------- refutations when the transport refuses *)
-(* C14-R2: two confirmable requests to remote 0, the transport starts refusing 0, the first is acknowledged *)
-Definition refused_release := [Ev (Request 1 0 0 1); Ev (Request 2 0 0 1); Refuse 0 true; Ev (RecvEmpty 0 2 0)].
-(* C14-R1: a confirmable request, its first retransmission is refused, the transport accepts again, a new request *)
-Definition refused_retransmission := [Ev (Request 1 0 0 2); Refuse 0 true; Ev Fire; Refuse 0 false; Ev (Request 2 0 0 2)].
+Theorem general_step l s e : Inv s ->
+  let s' := fst (step_ev l s e) in let o := snd (step_ev l s e) in
+  Inv s' /\ (forall r, backlog_of r s ++ subm r o = left r o ++ backlog_of r s') /\ (forall x, ~ In (Crash x) o).
+Proof. intros HI. destruct (step_ev_trans l s e HI) as (A & B & C). split; [exact A|]. split; [exact B|].
+  intros x H. unfold nocrash in C. rewrite forallb_forall in C. specialize (C _ H). discriminate. Qed.
 
-Theorem no_internal_error_refuted : exists es e, In (Crash e) (concat (snd (rrun (init 0 0 [], []) es))).
-Proof. exists refused_release, KeyError. vm_compute. auto 10. Qed.
-
-Theorem no_internal_error_refuted_assertion :
-  In (Crash AssertionError) (concat (snd (rrun (init 0 0 [], []) [Ev (Request 1 0 0 2); Refuse 0 true; Ev Fire; Refuse 0 false; Ev (RecvEmpty 0 2 0)]))).
-Proof. vm_compute. auto 10. Qed.
-
-Theorem one_exchange_per_remote_refuted : exists es r,
-  let s := fst (fst (rrun (init 0 0 [], []) es)) in count_r r s = 2%nat.
-Proof. exists refused_retransmission, 0. vm_compute. reflexivity. Qed.
-
-(* the exchange that was put back has no backlog entry, although its request has been failed *)
-Theorem backlog_iff_exchange_refuted :
-  let s := fst (fst (rrun (init 0 0 [], []) [Ev (Request 1 0 0 2); Refuse 0 true; Ev Fire])) in
-  count_r 0 s = 1%nat /\ in_backlogs 0 s = false /\ outgoing_requests s = [].
-Proof. vm_compute. auto. Qed.
-
-(* ... and it is retransmitted next to the new request's message: two confirmable messages to remote 0 in flight *)
-Theorem two_in_flight_refuted :
-  let tr := concat (snd (rrun (init 0 0 [], []) (refused_retransmission ++ [Ev Fire; Ev Fire]))) in
-  exists m1 m2, m_sub m1 = Req 1 /\ m_sub m2 = Req 2 /\ m_remote m1 = 0 /\ m_remote m2 = 0 /\
-    In (Fail 1 NetworkError) tr /\ In (Tx m2 false) tr /\ In (Tx m1 true) tr /\ In (Tx m2 true) tr.
-Proof. exists {| m_sub := Req 1; m_remote := 0; m_mtype := 0; m_code := 1; m_mid := 0; m_tok := 1; m_maxre := 2 |},
-         {| m_sub := Req 2; m_remote := 0; m_mtype := 0; m_code := 1; m_mid := 1; m_tok := 2; m_maxre := 2 |}.
-  vm_compute. repeat split; auto 20. Qed.
+Theorem refusal_is_transport_error l what r s : refuses l r = true ->
+  send_via_transport l what r s = (fst (step s (TransportError r)), refused_ghost what ++ snd (step s (TransportError r))).
+Proof. intros H. unfold send_via_transport. rewrite H. cbn [step]. destruct (dispatch_error r s); reflexivity. Qed.
